@@ -29,7 +29,7 @@ func runExtras(e *Engine, prop, tier string) []*extraResult {
 	}
 	if prop == "C01" {
 		out = append(out, runBoundedGoTest(prop, tier, "bounded:queries", "boltz", "c01_queries_test.go", "^TestVerifBoundedQueries$",
-			"the whole-query half of C01 that the per-node contracts leave out (anyOf / allOf / count / isEmpty over sets incl. the index-seek shortcut, negated forms, null rules, number-to-string coercion, connectives, and the composition of parser, typing pass, scanner and node evaluation): seeded random filters (fully parenthesised, depth <= 3, 22 kinds of atoms over string, nullable string, int, float, bool, datetime and string-set fields, dotted symbols through an fk set, sub-queries in count / isEmpty and any-typed map entries) on a fixed dataset of 8 rows and 3 linked entities with nulls, empty strings, prefixes and case variants, evaluated through BaseStore.QueryIds on a real bbolt file and compared with a reference evaluator of the documented semantics; every fourth filter also with sort, skip and limit (quick: 1500 filters, thorough: 40000). The recorded deviation 'a null boolean reads as false' is mirrored, not re-reported"))
+			"the whole-query half of C01 that the per-node contracts leave out (anyOf / allOf / count / isEmpty over sets incl. the index-seek shortcut, negated forms, null rules, number-to-string coercion, connectives, and the composition of parser, typing pass, scanner and node evaluation): seeded random filters (fully parenthesised, depth <= 3, 23 kinds of atoms (one of them the seek shortcut anyOf(set) = literal with literals that are elements, prefixes of elements and extensions of elements) over string, nullable string, int, float, bool, datetime and string-set fields, dotted symbols through an fk set, sub-queries in count / isEmpty and any-typed map entries) on a fixed dataset of 8 rows and 3 linked entities with nulls, empty strings, prefixes and case variants, evaluated through BaseStore.QueryIds on a real bbolt file and compared with a reference evaluator of the documented semantics; every fourth filter also with sort, skip and limit (quick: 1500 filters, thorough: 40000). The recorded deviation 'a null boolean reads as false' is mirrored, not re-reported"))
 	}
 	if prop == "C14" {
 		out = append(out, runBoundedGoTest(prop, tier, "bounded:treeCursor", "ast", "c14_treecursor_test.go", "^TestVerifBoundedTreeCursor$",
